@@ -177,7 +177,7 @@ def _cookie_str(ev, args, kwargs, node):
 
 
 LIST_HEADERS_BODY = Contract(
-    id="list_headers[body]", file=R, qualname="BaseResponse.list_headers", props=["C05", "C13", "C02"],
+    id="list_headers[body]", file=R, qualname="BaseResponse.list_headers", props=["C05", "C13", "C02", "C20"],
     params={"self": ObjT("baize/responses.py:BaseResponse", headers=MH_T, cookies=List(Opaque("Cookie"))), "as_bytes": Bool},
     ghosts={"its": List(Tup(Str, Str))},
     requires=["forall((k, Str), implies(has(self.headers._dict, k), inre(k, '[\\x00-\\xff]*') and "
